@@ -144,8 +144,9 @@ fn angle_axis<T: Sx>() {
     assume(ge(k::<T>(1) - q.w * q.w, eps * eps));
     let (angle, axis) = q.into_angle_axis();
     goal("axis is unit", eq(axis.x * axis.x + axis.y * axis.y + axis.z * axis.z, k(1)));
-    goal("angle in [0, 2PI]", and(vec![ge(angle, k(0)), le(angle, T::PI() + T::PI())]));
-    goals_vec("rotation_3d(angle, axis) = q", &qe(Quaternion::rotation_3d(angle, axis)), &qe(q));
+    // "describing the same rotation": q and -q are the same rotation, and the property fixes no range for the angle
+    let (back, want) = (qe(Quaternion::rotation_3d(angle, axis)), qe(q));
+    goal("rotation_3d(angle, axis) = q or -q (the same rotation)", or(vec![and(back.iter().zip(&want).map(|(b, w)| eq(*b, *w)).collect()), and(back.iter().zip(&want).map(|(b, w)| eq(*b, -*w)).collect())]));
 }
 
 pub fn register(v: &mut Vec<Scenario>) {
